@@ -412,6 +412,9 @@ type opT struct {
 	proof [][]byte
 	fault string // NoFault | FBegin (assigned after observation)
 	desc  string
+	// set by generators that KNOW the candidate is not a genuine extension of the held STH although
+	// it is signed and comes with a proof (the reason); only the direct oracle reads it
+	mustRefuse string
 }
 
 func (o *opT) coq() string {
